@@ -16,6 +16,7 @@
 #include <mm/msg_allocator.h>
 
 #include <mpi.h>
+#include <verif_hooks.h>
 
 enum {
 	RS_MSG_TAG = 0,
@@ -111,6 +112,7 @@ void mpi_global_fini(void)
 void mpi_remote_msg_send(struct lp_msg *msg, nid_t dest_nid)
 {
 	gvt_remote_msg_send(msg, dest_nid);
+	VH(VH_MPI_SEND, msg, 0, dest_nid);
 
 	MPI_Request req;
 	MPI_Isend(msg_remote_data(msg), msg_remote_size(msg), MPI_BYTE, dest_nid, RS_MSG_TAG, MPI_COMM_WORLD, &req);
@@ -130,6 +132,7 @@ void mpi_remote_msg_send(struct lp_msg *msg, nid_t dest_nid)
 void mpi_remote_anti_msg_send(struct lp_msg *msg, nid_t dest_nid)
 {
 	gvt_remote_anti_msg_send(msg, dest_nid);
+	VH(VH_MPI_SEND, msg, 1, dest_nid);
 
 	MPI_Request req;
 	MPI_Isend(msg_remote_data(msg), msg_remote_anti_size(), MPI_BYTE, dest_nid, RS_MSG_TAG, MPI_COMM_WORLD, &req);
@@ -155,6 +158,7 @@ void mpi_control_msg_broadcast(enum msg_ctrl_code ctrl)
  */
 void mpi_control_msg_send_to(enum msg_ctrl_code ctrl, nid_t dest)
 {
+	VH(VH_MPI_CTRL_SEND, NULL, ctrl, dest);
 	MPI_Request req;
 	MPI_Isend(&ctrl_msgs[ctrl], sizeof(*ctrl_msgs), MPI_BYTE, dest, RS_MSG_TAG, MPI_COMM_WORLD, &req);
 	MPI_Request_free(&req);
@@ -197,11 +201,13 @@ void mpi_remote_msg_handle(void)
 			MPI_Mrecv(msg_remote_data(msg), size, MPI_BYTE, &mpi_msg, MPI_STATUS_IGNORE);
 
 			gvt_remote_anti_msg_receive(msg);
+			VH(VH_MPI_RECV, msg, 1, 0);
 		} else {
 			msg = msg_allocator_alloc(size - offsetof(struct lp_msg, pl) + msg_preamble_size());
 			MPI_Mrecv(msg_remote_data(msg), size, MPI_BYTE, &mpi_msg, MPI_STATUS_IGNORE);
 
 			gvt_remote_msg_receive(msg);
+			VH(VH_MPI_RECV, msg, 0, 0);
 		}
 		msg_queue_insert(msg);
 	}
